@@ -272,6 +272,7 @@ theorem trErr_plain (e : MiniVM.Err) : (∃ v, e = .user v ∧ trErr e = .user v
   | notIter v => exact .inr ⟨_, _, rfl⟩
   | noParam => exact .inr ⟨_, _, rfl⟩
   | noVar x => exact .inr ⟨_, _, rfl⟩
+  | keyNotStr k => exact .inr ⟨_, _, rfl⟩
   | idx v k =>
     right
     simp only [trErr]
@@ -318,6 +319,10 @@ theorem catch_msg (e : MiniVM.Err) (m : V)
     simp only [trErr] at h
     simp only [Err.toV, IterMsg.msg, errMsgV]
     cases hm : Spec.errMessage (.builtin "iterator" [v]) <;> simp_all
+  | keyNotStr k =>
+    simp only [trErr] at h
+    simp only [Err.toV, IterMsg.keyMsg, errMsgV]
+    cases hm : Spec.errMessage (.builtin "objectKeyNotString" [k]) <;> simp_all
   | noParam =>
     simp only [trErr] at h
     have : Spec.errMessage (.builtin "" []) = none := by decide
